@@ -685,9 +685,14 @@ def run_handmade(run, case: dict, engine: str, sample: bool = False) -> None:
     # clear and regenerate the lower levels
     after = min(case['clear_after'], mips - 1)
     kept = {k: frame_bytes(f) for k, f in vtf._frames.items()}
+    filt_i = (case['clear_after'] + case['w'] + 3 * case['mips'] + case['frames']) % 7  # 0-3 the nearest filters, else the default
     try:
         vtf.clear_mipmaps(after=after)
-        vtf.compute_mipmaps()
+        if filt_i < 4:
+            vtf.compute_mipmaps(vm.FilterMode(filt_i))
+            run.count('nearest_filter_regenerations')
+        else:
+            vtf.compute_mipmaps()
     except Exception as exc:
         ctx.bad('compute-mipmaps-raises', f'clear_mipmaps/compute_mipmaps raised {type(exc).__name__}: {exc}', phase='regen')
         run.case(case, w * h > 1, tag=engine)
@@ -707,6 +712,13 @@ def run_handmade(run, case: dict, engine: str, sample: bool = False) -> None:
         run.count('generated_mipmaps_checked')
         if lv >= 1 and (pf.width == 1 or pf.height == 1) and (pf.width, pf.height) != (1, 1):
             run.count('clamped_level_regenerations')
+        if filt_i < 4:
+            bad = G.mip_pick_violation(frame_bytes(pf), pf.width, pf.height, now, f.width, f.height, right=bool(filt_i & 1), lower=bool(filt_i & 2))
+            if bad is not None:
+                ctx.bad('mipmap-wrong-dimensions' if bad['why'] == 'dimensions' else 'mipmap-nearest-filter-wrong-pixel',
+                        f'level {lv} regenerated with {vm.FilterMode(filt_i).name} from level {lv - 1}: {bad["why"]}',
+                        witness={'frame': key_json(key), **bad}, phase='regen')
+            continue
         bad = G.mip_average_violation(frame_bytes(pf), pf.width, pf.height, now, f.width, f.height)
         if bad is not None:
             ctx.bad('mipmap-not-average', f'regenerated level {lv} is not the average of level {lv - 1}: {bad["why"]}',
@@ -765,7 +777,7 @@ def main(run, shard=(0, 1)) -> None:
     probe.report(run)
     probe.check_reached(run)
     run.extra['formats'] = list(G.WRITABLE)
-    run.require('saves', 'reads', 'resaves', 'frames_compared', 'thumbnails_compared', 'generated_mipmaps_checked',
+    run.require('saves', 'reads', 'resaves', 'frames_compared', 'thumbnails_compared', 'generated_mipmaps_checked', 'nearest_filter_regenerations',
                 'index_probes', 'resource_sets_compared', 'sheets_compared', 'one_wide_textures', 'cubemaps_with_sphere',
                 'cubemaps_without_sphere', 'volumetric_textures', 'reduced_precision_main_format', 'handmade_files_read',
                 'sweep_images')
